@@ -172,6 +172,17 @@ func (i *interpreter) initPackage(pkg *ssa.Package) {
 		return
 	}
 	if init := pkg.Func("init"); init != nil && init.Blocks != nil {
+		// Globals that the initialiser assigns start out poisoned: should the initialiser be cut short, using one of
+		// the not-yet-assigned globals aborts the path (inconclusive) instead of silently reading a zero value.
+		for _, b := range init.Blocks {
+			for _, in := range b.Instrs {
+				if st, ok := in.(*ssa.Store); ok {
+					if g, ok := st.Addr.(*ssa.Global); ok && g.Pkg == pkg && g.Name() != "init$guard" {
+						*i.globals[g] = poison{why: "package initialiser of " + pkg.Pkg.Path() + " was cut short"}
+					}
+				}
+			}
+		}
 		i.initDepth++
 		saveSteps := i.path.steps
 		func() {
@@ -181,8 +192,8 @@ func (i *interpreter) initPackage(pkg *ssa.Package) {
 					if pa, ok := r.(pathAbort); ok && pa.kind != abortUnsupported {
 						panic(r)
 					}
-					// the rest of this package's initialisation is lost; its globals stay as they are.
-					i.path.note("init-aborted:" + pkg.Pkg.Path())
+					// the rest of this package's initialisation is lost; globals it had not assigned yet stay poisoned.
+					i.path.note("init-aborted:" + pkg.Pkg.Path() + ": " + trunc(fmt.Sprint(r), 200))
 				}
 			}()
 			callSSA(i, nil, token.NoPos, init, nil, nil)
@@ -569,6 +580,34 @@ func visitInstr(fr *frame, instr ssa.Instruction) continuation {
 	return kNext
 }
 
+// visitInstrPermissive executes one instruction of a package initialiser; an instruction the engine cannot execute
+// yields a poison value (for value instructions) instead of cutting the initialiser short.
+func visitInstrPermissive(fr *frame, instr ssa.Instruction) (k continuation) {
+	v, isValue := instr.(ssa.Value)
+	if !isValue {
+		return visitInstr(fr, instr)
+	}
+	defer func() {
+		if r := recover(); r != nil {
+			switch rv := r.(type) {
+			case pathAbort:
+				if rv.kind != abortUnsupported {
+					panic(r)
+				}
+				fr.set(v, poison{why: rv.msg})
+			case runtime.Error:
+				fr.set(v, poison{why: rv.Error()})
+			case targetPanic:
+				fr.set(v, poison{why: "panic during initialisation"})
+			default:
+				panic(r)
+			}
+			k = kNext
+		}
+	}()
+	return visitInstr(fr, instr)
+}
+
 // permissiveCall runs a call made directly from a package initialiser; failures yield poison.
 func permissiveCall(fr *frame, instr *ssa.Call, fn value, args []value) (res value) {
 	if f, ok := fn.(*ssa.Function); ok && f != nil && f.Synthetic != "" && f.Name() == "init" && f.Pkg != fr.fn.Pkg {
@@ -743,8 +782,15 @@ func runFrame(fr *frame) {
 		if p.steps > p.maxSteps {
 			panic(pathAbort{abortBudget, fmt.Sprintf("step budget %d exceeded in %s (unwinding assertion)", p.maxSteps, fr.fn)})
 		}
+		permissive := fr.i.initDepth > 0 && fr.fn.Synthetic != "" && fr.fn.Name() == "init"
 		for _, instr := range nonPhis {
-			if visitInstr(fr, instr) == kReturn {
+			var k continuation
+			if permissive {
+				k = visitInstrPermissive(fr, instr)
+			} else {
+				k = visitInstr(fr, instr)
+			}
+			if k == kReturn {
 				return
 			}
 		}
